@@ -262,25 +262,39 @@ def r17_4(ctx):
     ctx.floor("known go tokens", len(names), 5)
     for nm, (s, tt, ft, ok) in sorted(names.items()):
         ctx.ob("parse_go_command:token(%s):tests-current-token" % nm, ok, b.where(b.term_loc(s)), "`%s` is compared with commands[i]" % nm)
-    # increments: count +1 steps of i along one iteration on the default path and on each known path
-    incs = {}
-    for loc, k in rd.all_sites(i):
-        if loc[0] in loop and k == "whole":
-            e = ex.rvalue(b.stmts(loc[0])[loc[1]]["rv"], loc)
-            le = linear(e)
-            if le is not None and len(le[0]) == 1 and list(le[0].values()) == [1] and next(iter(le[0]))[0] == "var" and next(iter(le[0]))[1] == i:
-                incs[loc[0]] = le[1]
-            else:
-                incs[loc[0]] = None
+    # increments: the total advance of i along one iteration, decided per token hypothesis.  The body
+    # is specialised under "the current token is <name>" / "is no known name" (the name tests are the
+    # hypothesis; branch-selected temporaries such as a `consumed` flag or a step size collapse to
+    # the one definition that is still feasible), then every path of one iteration is summed.
+    from wa.cond import specialise
+    exk = Exprs(b, keep={i})     # the counter stays symbolic: every definition reads `i' + c`
+    tests = {nm: strip_refs(exk.switch_discr(s)) for nm, (s, tt, ft, ok) in names.items()}
 
-    def steps_from(start, removed_edges):
-        """Set of possible total increments along one iteration starting at block `start`."""
+    def steps_under(which):
+        hyp = {d: ("eq", nm == which) for nm, d in tests.items()}
+        b2, ex2, dead = specialise(b, hyp, keep={i})
+        lp2 = b2.natural_loop(h) if h in b2.reachable else set()
+        incs = {}
+        for loc, k in b2.reaching().all_sites(i):
+            if loc[0] in lp2 and k == "whole":
+                e = ex2.rvalue(b2.stmts(loc[0])[loc[1]]["rv"], loc)
+                le = linear(e)
+                if le is not None and len(le[0]) == 1 and list(le[0].values()) == [1] and next(iter(le[0]))[0] == "var" and next(iter(le[0]))[1] == i:
+                    incs[loc[0]] = incs.get(loc[0], 0) + le[1] if incs.get(loc[0], 0) is not None else None
+                else:
+                    incs[loc[0]] = None
+            elif loc[0] in lp2:
+                incs[loc[0]] = None
         out = set()
-        def rec(x, acc, seen):
-            if x not in loop:
+        # under "is <name>" only iterations that take the name's edge count
+        must = names[which][0] if which is not None else None
+
+        def rec(x, acc, seen, hit):
+            if x not in lp2:
                 return          # leaving the loop: not an iteration step
-            if x == h:
-                out.add(acc)
+            if x == h and seen:
+                if must is None or hit:
+                    out.add(acc)
                 return
             if x in seen:
                 return
@@ -290,26 +304,18 @@ def r17_4(ctx):
                     out.add(None)
                     return
                 a2 = acc + incs[x]
-            for y in b.succ.get(x, []):
-                if (x, y) in removed_edges:
-                    continue
-                rec(y, a2, seen | {x})
-        rec(start, 0, set())
+            for y in b2.succ.get(x, []):
+                rec(y, a2, seen | {x}, hit or x == must)
+        rec(h, 0, set(), False)
         return out
 
-    all_true = {(s, tt) for nm, (s, tt, ft, ok) in names.items()}
-    body_entry = [y for y in b.succ.get(h, []) if y in loop]
-    # default path: every name test false
-    dflt = set()
-    for e0 in body_entry:
-        dflt |= steps_from(e0, all_true)
+    dflt = steps_under(None)
     ctx.ob("parse_go_command:unknown-token-advances-by-one", dflt == {1}, b.where(b.term_loc(h)),
            "when no known name matches, the index advances by %s per iteration (must be exactly 1, so the next token is examined)" % sorted(map(str, dflt)))
     for nm, (s, tt, ft, ok) in sorted(names.items()):
-        st = steps_from(tt, set())
+        st = steps_under(nm)
         ctx.ob("parse_go_command:token(%s):consumes-name-and-value" % nm, st == {2}, b.where(b.term_loc(s)),
                "after `%s <value>` the index advances by %s (must be 2)" % (nm, sorted(map(str, st))))
-
 
 
 BLOCKING = ("std::sync::mpsc::Receiver::<T>::recv", "std::sync::mpsc::Receiver::<T>::iter", "std::thread::JoinHandle::<T>::join",
@@ -373,6 +379,48 @@ def r8_3(ctx):
     ctx.ob("find_and_play_best_move:no-unbounded-blocking", True, b.file, "callees checked against the blocking list", nontrivial=False)
 
 
+def _peel_view(e):
+    """Through borrows and the view conversions that do not change the items (`&v`, `&*v`,
+    Vec::deref / as_slice / borrow / as_ref, String::deref / as_str)."""
+    while True:
+        e = strip_refs(e)
+        if e[0] == "call" and len(e[2]) == 1 and (e[1].endswith("as std::ops::Deref>::deref") or e[1].endswith("::as_slice") or e[1].endswith("::as_str")
+                                                  or e[1].endswith(">::borrow") or e[1].endswith(">::as_ref")):
+            e = e[2][0]
+            continue
+        return e
+
+
+def _clean_input_by_split_join(ctx, b, ex):
+    """The same normalisation stated with the library: `buffer.split_whitespace()` yields exactly the
+    maximal runs of non-whitespace characters, unchanged and in order, never an empty one
+    (char::is_whitespace, the definition the loop form tests); `join(" ")` writes one space between
+    consecutive items and nothing before the first or after the last.  Decides the same four
+    obligations as the loop form; returns False when the function is not of this form."""
+    rets = b.return_blocks()
+    if len(rets) != 1 or b.loops():
+        return False
+    e = _peel_view(ex.local(0, b.term_loc(rets[0])))
+    # `.to_string()` / `String::from` of the joined text do not change it
+    while e[0] == "call" and len(e[2]) == 1 and (e[1].endswith("ToString>::to_string") or e[1].endswith("::to_owned") or e[1].endswith("Clone>::clone")):
+        e = _peel_view(e[2][0])
+    if not (e[0] == "call" and len(e[2]) == 2 and (e[1].endswith("<impl [T]>::join") or e[1].endswith("::join"))):
+        return False
+    items, sep = _peel_view(e[2][0]), strip_refs(e[2][1])
+    if not (items[0] == "call" and items[1].endswith("Iterator::collect") and len(items[2]) == 1):
+        return False
+    src = _peel_view(items[2][0])
+    sp = [i for i in range(1, b.arg_count + 1) if b.local_ty(i) == "&str"]
+    is_sw = src[0] == "call" and src[1] == "core::str::<impl str>::split_whitespace" and len(sp) == 1 and _peel_view(src[2][0]) == ("arg", sp[0])
+    where = b.where(b.term_loc(rets[0]))
+    ctx.ob("clean_input:copy-non-whitespace", is_sw, where,
+           "the items joined are `%s`; must be split_whitespace() of the input: the maximal runs of non-whitespace characters, copied unchanged" % show_expr(src, b)[:80])
+    ctx.ob("clean_input:single-space", sep == ("str", " "), where, "the separator written between two runs is `%s`; must be one space" % show_expr(sep, b))
+    ctx.ob("clean_input:previous-tracks-current", is_sw, b.file, "runs are maximal: split_whitespace never yields an empty item, so a whitespace run of any length gives one separator")
+    ctx.ob("clean_input:trimmed", is_sw and e[1].endswith("join"), b.file, "join writes separators only between items: nothing before the first run or after the last")
+    return True
+
+
 def r17_5(ctx):
     """clean_input: a character is copied iff it is not whitespace; a single space is emitted for a
     whitespace character only when the previous character was not whitespace; the result is trimmed."""
@@ -382,6 +430,8 @@ def r17_5(ctx):
     ctx.note_fn("utils::clean_input")
     ex = Exprs(b)
     pushes = [(bb, t) for bb, t in b.iter_calls() if (callee_of(t) or "").endswith("String::push")]
+    if not pushes and _clean_input_by_split_join(ctx, b, ex):
+        return
     kinds = {}
     item = None
     for bb, t in pushes:
